@@ -30,10 +30,10 @@ CLAIMS = {
          "Trusted: prost / serde_json / base64 encoders, Display of u64 (A-LIB, A-STR: uninterpreted injective functions); Bytes and SystemTime stand-ins; u32 counter wrap (A-ARITH)."),
  "C10": ("proof of the map operations (scoped)",
          "Proved: State::create_topic / State::create_subscription succeed exactly when the name is absent, then insert exactly that name with a fresh increasing internal id, and leave the state unchanged on ALREADY_EXISTS; the same-project rule is decided before any state access; delegate delete is map.remove; effective ack deadline = max(seconds, 10) for all i32; TopicActor::attach_subscription never fails (the create path registers the name before the attach and has no rollback, so 'a failed create leaves nothing behind' rests on this); read-back (bundle B6): parse_push_config stores the request's endpoint (trimmed), attributes and oidc token, map_to_subscription_resource reports the stored name, topic, whole seconds of the ack deadline and push configuration, and the two compose to the identity (lemma_push_config_roundtrip, lemma_ack_deadline_roundtrip: reported deadline = max(seconds, 10) for every i32).",
-         "The lookup helpers of the handlers (get_subscription, get_topic_internal, subscription_not_found, topic_not_found, conflict) are under contract in B6: an absent name is answered with NOT_FOUND. NOT covered: linearizability across threads (parking_lot::RwLock trusted; that each wrapper holds the guard around exactly one State call is structural), 'later requests observe it' through the actors, the status mapping inside the remaining async handlers (get / delete / list / pull / streaming; gRPC scenario `namespace`). The Publish, Acknowledge and ModifyAckDeadline handlers are under contract as whole async functions (B5, B2): OK only if the name parses and exists, NOT_FOUND for an absent name. The status mapping of the two create handlers is under contract (B6, match arms of their map_err closures lifted as regions): CreateTopic / CreateSubscription answer ALREADY_EXISTS for an existing name, CreateSubscription NOT_FOUND for an absent topic and INVALID_ARGUMENT for a topic in another project."),
+         "The lookup helpers of the handlers (get_subscription, get_topic_internal, subscription_not_found, topic_not_found, conflict) are under contract in B6: an absent name is answered with NOT_FOUND. NOT covered: linearizability across threads (parking_lot::RwLock trusted; that each wrapper holds the guard around exactly one State call is structural), 'later requests observe it' through the actors, the status mapping inside the remaining async handlers (get / delete / list / pull / streaming; gRPC scenario `namespace`). The Publish, Acknowledge, ModifyAckDeadline, GetSubscription, DeleteSubscription and DeleteTopic handlers are under contract as whole async functions (B5, B2, B6): INVALID_ARGUMENT for a name that does not parse, NOT_FOUND for an absent name, OK only for an existing one; GetSubscription answers with the resource of the subscription the name denotes (its name and the configuration it stores). The status mapping of the two create handlers is under contract (B6, match arms of their map_err closures lifted as regions): CreateTopic / CreateSubscription answer ALREADY_EXISTS for an existing name, CreateSubscription NOT_FOUND for an absent topic and INVALID_ARGUMENT for a topic in another project."),
  "C11": ("proof of the set algebra (scoped)",
          "Proved: topic actor remove_subscription removes exactly the named entry, delete clears the set, sets deleted and is idempotent, attach never overwrites; subscription delete empties backlog and leases and sets deleted, after which post/pull/ack/modify are no-ops.",
-         "NOT covered: order of effects across the two actors, liveness of the Weak<Topic>, that the Weak<Topic> is dead exactly when the topic is deleted (the mapping itself is under contract in B6: live topic -> its name, dead -> the deleted marker), re-creation not re-attaching (call-graph fact)."),
+         "The DeleteSubscription / DeleteTopic handlers (async, whole bodies, B6) are under contract: OK means the resource the name denotes was asked to delete itself and answered OK. NOT covered: order of effects across the two actors, liveness of the Weak<Topic>, that the Weak<Topic> is dead exactly when the topic is deleted (the mapping itself is under contract in B6: live topic -> its name, dead -> the deleted marker), re-creation not re-attaching (call-graph fact)."),
  "C13": ("proof with trusted seams",
          "Proved: Paging::new normalises the size (0 -> 20, > 1000 -> 1000), next offset = offset + page length and none for an empty page, negative size is INVALID_ARGUMENT, an issued token decodes to its offset, anything else is INVALID_ARGUMENT or some offset; walk lemma (unbounded list length): following offsets from the first page yields the list exactly once in order with pages <= size, and a hostile offset yields a valid (possibly empty) page.",
          "Assumed contracts (listed in trusted_base): PageToken::encode/try_decode (base64 + to_ne_bytes; Verus cannot specify const-generic array lengths; a complete Kani harness ran out of memory at 30 GB, so the codec is swept by the bounded stand-in `tokens` on the mounted source file), <[T]>::sort_unstable. The sort + skip/take/collect tails of list_topics and list_subscriptions_in_project are under contract (window == page_items); their filter/collect heads and the window of TopicActor::list_subscriptions use the `cloned` adapter (no vstd spec) and are covered by the bounded stand-ins only; creation order = order of internal ids (C10)."),
